@@ -1,12 +1,90 @@
 (* C15 - scanning is total and every token is the exact source text.
-   Theorems only; proofs in Proofs/Scan*.v.  Model: Model/Scan.v, dialect XGo. *)
+   Theorems only; proofs in Proofs/ScanBase, ScanSub, ScanTotal, ScanSpec, ScanCor.
+   Model: Model/Scan.v (run = Init + Scan until EOF, fuel 2*|src|+3), dialect XGo = scanner/scanner.go.
+   ul ud : unicode.IsLetter / IsDigit above 0x7f (arbitrary).  Definitions of the statements:
+   Model/ScanRel.v (sub, is_blank, cr_del, lit_ok, bom_len, ends_eof in Proofs/ScanSpec.v).
+   Tok = (tpos, ttok, tlit, tend): what Scan returns plus the offset just after the token's
+   source text (s.offset at return minus a pending unit). *)
 From Coq Require Import List NArith ZArith Bool.
 Import ListNotations.
-From V Require Import Base.Prelude Model.Scan Proofs.ScanBase.
+From V Require Import Base.Prelude Gen.ScanTok Model.Scan Model.ScanRel
+  Proofs.ScanBase Proofs.ScanTotal Proofs.ScanSpec Proofs.ScanCor.
 Open Scope Z_scope.
 
-(* the always-progress rule: next() on a non-exhausted input consumes a non-empty prefix *)
-Theorem C15_next_progress : forall s, rest s <> [] -> sadv s (nxt s).
-Proof. exact sadv_nxt. Qed.
+(* scan_total: for every byte string, both comment modes - and all three dialects - Scan never
+   panics (scanComment's lit[1] included) and the stream ends within fuel_of src = 2*|src|+3 steps *)
+Theorem C15_scan_total : forall ul ud d cm src, exists toks errs, run ul ud d cm src = Ok (toks, errs).
+Proof. exact run_total. Qed.
 
-Print Assumptions C15_next_progress.
+(* the stream is [...; EOF] with EOF placed at |src| and no other EOF token *)
+Theorem C15_scan_ends_in_eof : forall ul ud cm src toks errs,
+  run ul ud XGo cm src = Ok (toks, errs) ->
+  exists ts e, toks = ts ++ [e] /\ ttok e = T_EOF /\ tpos e = zlen src /\ Forall (fun t => ttok t <> T_EOF) ts.
+Proof. exact run_ends_eof. Qed.
+
+(* scan_token_count: at most one token per source byte, not counting inserted semicolons and EOF *)
+Theorem C15_scan_token_count : forall ul ud cm src toks errs,
+  run ul ud XGo cm src = Ok (toks, errs) -> (length (filter counted toks) <= length src)%nat.
+Proof. exact run_token_count. Qed.
+
+(* scan_offsets_monotone: every token lies in [bom_len src, |src|]; a later token starts at or
+   after the end of an earlier one (so offsets never decrease and token texts do not overlap);
+   every token other than an inserted semicolon / EOF has a non-empty text, hence offsets
+   strictly increase between such tokens *)
+Theorem C15_scan_offsets_monotone : forall ul ud cm src toks errs,
+  run ul ud XGo cm src = Ok (toks, errs) ->
+  Forall (fun t => bom_len src <= tpos t /\ tpos t <= tend t /\ tend t <= zlen src) toks
+  /\ (forall pre t1 mid t2 post, toks = pre ++ t1 :: mid ++ t2 :: post -> tend t1 <= tpos t2)
+  /\ Forall (fun t => counted t = true -> tpos t < tend t) toks.
+Proof. exact run_offsets. Qed.
+
+(* scan_lit_is_slice: the literal (or the spelling, for operators) of every token is the source
+   text src[tpos:tend], up to: carriage returns deleted in comments and raw strings; the c / py
+   prefix of CSTRING / PYSTRING; inserted semicolons (empty text or the newline); ILLEGAL (one
+   character; literal = string(ch)) - see lit_ok in Model/ScanRel.v *)
+Theorem C15_scan_lit_is_slice : forall ul ud cm src toks errs,
+  run ul ud XGo cm src = Ok (toks, errs) -> Forall (fun t => lit_ok XGo t (sub src (tpos t) (tend t))) toks.
+Proof. exact run_lit_is_slice. Qed.
+
+(* scan_tiles_source: with comments on, every byte after a leading BOM belongs to a token or is
+   one of ' ' \t \n \r (with C15_scan_offsets_monotone: to exactly one token) *)
+Theorem C15_scan_tiles_source : forall ul ud src toks errs,
+  run ul ud XGo true src = Ok (toks, errs) ->
+  forall i, bom_len src <= i < zlen src ->
+  (exists t, In t toks /\ tpos t <= i < tend t) \/ is_blank (nth (Z.to_nat i) src 0%N) = true.
+Proof. exact run_tiles. Qed.
+
+(* non-vacuity: a source with a BOM, a c"" string, a number with a unit, a rational, a raw string
+   with \r, '#' '//' and block comments (one with \r), operators of every switchN shape, a keyword,
+   an invalid byte and a NUL; the model returns 28 tokens and 4 errors (the invalid byte and the NUL are each reported by next() and by Scan) *)
+Definition nouni : Z -> bool := fun _ => false.
+Definition ex_src : str :=
+  [239;187;191; 35;99;10; 120;32;58;61;32;99;34;97;34;32;43;32;49;46;53;109;32;45;62;32;51;114;10;
+   96;97;13;98;96;32;60;60;61;32;121;32;38;94;61;32;122;46;46;46;10; 47;42;32;13;10;42;47;32;
+   114;101;116;117;114;110;32;39;92;110;39;32;47;47;99;13;10; 255;0;36;63]%N.
+Example C15_example_stream :
+  match run nouni nouni XGo true ex_src with
+  | Ok (toks, errs) => (length toks =? 28)%nat && (length errs =? 4)%nat
+      && forallb (fun t => (bom_len ex_src <=? tpos t) && (tpos t <=? tend t)) toks
+  | _ => false
+  end = true.
+Proof. vm_compute. reflexivity. Qed.
+Example C15_example_unit :
+  option_map (map aobs) (match run nouni nouni XGo true [49;109;32;120]%N with Ok (t, _) => Some t | _ => None end)
+  = Some [(T_INT, 0, [49%N]); (T_UNIT, 1, [109%N]); (T_IDENT, 3, [120%N]); (T_SEMICOLON, 4, [10%N]); (T_EOF, 4, [])].
+Proof. vm_compute. reflexivity. Qed.
+(* the two repaired defects are gone from the model: a source ending in '#' scans, and the
+   newline after an empty '#' comment is not swallowed *)
+Example C15_example_sharp :
+  option_map (map aobs) (match run nouni nouni XGo true [120;10;35]%N with Ok (t, _) => Some t | _ => None end)
+  = Some [(T_IDENT, 0, [120%N]); (T_SEMICOLON, 1, [10%N]); (T_COMMENT, 2, [35%N]); (T_EOF, 3, [])]
+  /\ option_map (map aobs) (match run nouni nouni XGo true [35;10;102]%N with Ok (t, _) => Some t | _ => None end)
+  = Some [(T_COMMENT, 0, [35%N]); (T_IDENT, 2, [102%N]); (T_SEMICOLON, 3, [10%N]); (T_EOF, 3, [])].
+Proof. split; vm_compute; reflexivity. Qed.
+
+Print Assumptions C15_scan_total.
+Print Assumptions C15_scan_ends_in_eof.
+Print Assumptions C15_scan_token_count.
+Print Assumptions C15_scan_offsets_monotone.
+Print Assumptions C15_scan_lit_is_slice.
+Print Assumptions C15_scan_tiles_source.
